@@ -10,6 +10,7 @@
   tensor-lifting fact of DESIGN §7; the correspondence run additionally checks it against a dense simulator, n ≤ 5.)
 -/
 import GraphiqModel.Proofs.Tableau
+import GraphiqModel.Proofs.HilbertState
 namespace Graphiq.C07
 open Graphiq Graphiq.PRow Graphiq.Tab
 
@@ -241,5 +242,169 @@ example : ghz3.pivot 0 = some 3 := by decide          -- a Z measurement of qubi
 example : (ghz3.hGate 0).pivot 1 = some 3 := by decide
 example : (match ghz3.runOps [.h 0, .cnot 0 2, .meas 1 true, .insert 2, .resetY 0 true false, .swap 1 3, .remove 0 true] with
     | .ok t' => t'.n == 3 && t'.isSymplectic | .error _ => false) = true := by decide +kernel
+
+end Graphiq.C07
+
+/-! ## 6. Hilbert-space reading: the Pauli-group semantics above IS the matrix semantics, for every n
+
+  `Hilbert.pauliMat n p` is the `2^n × 2^n` complex matrix of the signed row `p = i^ip (-1)^r ⊗_j σ(x_j,z_j)`
+  (σ(1,1) = Y = [[0,-i],[i,0]]) in the computational basis, indexed by bit strings (bit `j` = qubit `j`, i.e. qubit 0 is
+  the left-most factor of graphiq's `np.kron` chains).  `Hilbert.gateMat n g` is the unitary of a gate, built from the 2×2
+  matrices of `graphiq/backends/density_matrix/functions.py` exactly as `get_one_qubit_gate` /
+  `get_two_qubit_controlled_gate` build them (H carries `1/√2`).  `Hilbert.rho n T = ∏_i (1 + P_i)/2` is the density
+  matrix of a stabilizer tableau.  The theorems of this section turn the "cited tensor-lifting fact" of §1 into
+  theorems: `row_sum`/`g_function` is matrix multiplication, the symplectic form is the commutation bit, every tableau
+  update rule is conjugation by the gate's unitary (signs included), and the stabilizer state transforms covariantly,
+  is a projector fixed by its whole group, and does not depend on the choice of generators. -/
+
+namespace Graphiq.C07
+open Graphiq Graphiq.PRow Graphiq.Tab Graphiq.Hilbert Matrix
+
+/-- **`row_sum` is matrix multiplication.**  The matrix of the model's signed row product (`PRow.mul n a b` =
+    `row_sum(row_to_add = a, target_row = b)` with the `g_function` exponent, reduced mod 4 and decoded into the two
+    phase bits) is the product of the matrices, in this order, for every number of qubits. -/
+theorem pauli_product_is_matrix_product (n : Nat) (a b : PRow) :
+    pauliMat n (PRow.mul n a b) = pauliMat n a * pauliMat n b := pauliMat_mul n a b
+
+/-- the matrices are the textbook ones: identity; `Z_q` diagonal with `(-1)^(b_q)`; `X_q` the bit flip at `q`;
+    `Y_q = [[0,-i],[i,0]]` at `q`; a sign bit is the scalar `-1` -/
+theorem pauli_matrix_is_textbook (n q : Nat) (hq : q < n) (s : Bool) (a b : Bits n) :
+    pauliMat n PRow.one = 1 ∧
+    pauliMat n (Zq q s) a b = (if a = b then (if xor s (bx b q) then (-1 : ℂ) else 1) else 0) ∧
+    pauliMat n (Xq q s) a b = (if a = Hilbert.flip (unitMask q) b then (if s then (-1 : ℂ) else 1) else 0) ∧
+    pauliMat n (Yq q s) a b
+      = (if a = Hilbert.flip (unitMask q) b then (if xor s (bx b q) then -Complex.I else Complex.I) else 0) :=
+  ⟨pauliMat_one n, pauliMat_Zq_apply n q s hq a b, pauliMat_Xq_apply n q s a b, pauliMat_Yq_apply n q s hq a b⟩
+
+/-- the two phase bits are the scalar `i^(2r + ip)`; the adjoint is the matrix of the adjoint row; rows without
+    imaginary phase are Hermitian involutions, rows with imaginary phase square to `-1`; every row is unitary -/
+theorem pauli_matrix_phase_adjoint_square (n : Nat) (p : PRow) :
+    pauliMat n p = iPow p.ph • pauliMat n (bare p) ∧
+    (pauliMat n p)ᴴ = pauliMat n (adj p) ∧
+    pauliMat n p * (pauliMat n p)ᴴ = 1 ∧
+    (p.ip = false → (pauliMat n p)ᴴ = pauliMat n p ∧ pauliMat n p * pauliMat n p = 1) ∧
+    (p.ip = true → pauliMat n p * pauliMat n p = -1) :=
+  ⟨pauliMat_phase n p, pauliMat_conjTranspose n p, pauliMat_mul_conjTranspose n p,
+   fun h => ⟨pauliMat_hermitian n p h, pauliMat_sq n p h⟩, pauliMat_sq_imag n p⟩
+
+/-- **the symplectic form is the commutation bit**: two rows anticommute in the model iff their matrices
+    anticommute, and commute iff the matrices commute -/
+theorem commutation_bit_is_matrix_commutation (n : Nat) (a b : PRow) :
+    (sp n a b = true ↔ pauliMat n a * pauliMat n b = -(pauliMat n b * pauliMat n a)) ∧
+    (sp n a b = false ↔ pauliMat n a * pauliMat n b = pauliMat n b * pauliMat n a) :=
+  ⟨pauliMat_anticomm_iff n a b, pauliMat_comm_iff n a b⟩
+
+/-- the gate matrices are assembled as in graphiq's density-matrix backend: a 2×2 matrix at one site
+    (`get_one_qubit_gate`), `hadamard() = [[1,1],[1,-1]]/√2`, `phase() = diag(1,i)`, `phase_dag() = diag(1,-i)`, the
+    Pauli matrices, and controlled-X / controlled-Z (`get_two_qubit_controlled_gate`) -/
+theorem gate_matrices_are_graphiq_matrices (n q c t : Nat) :
+    gateMat n (.H q) = invSqrt2 • oneQ n q hadM ∧ gateMat n (.P q) = oneQ n q phaseM ∧
+    gateMat n (.Pdag q) = oneQ n q phaseDagM ∧ gateMat n (.X q) = oneQ n q sigmaX ∧
+    gateMat n (.Y q) = oneQ n q sigmaY ∧ gateMat n (.Z q) = oneQ n q sigmaZ ∧ gateMat n (.I q) = 1 ∧
+    gateMat n (.CNOT c t) = ctrlQ n c t sigmaX ∧ gateMat n (.CZ c t) = ctrlQ n c t sigmaZ ∧
+    invSqrt2 * invSqrt2 = 1 / 2 ∧
+    (hadM false false = 1 ∧ hadM false true = 1 ∧ hadM true false = 1 ∧ hadM true true = -1) ∧
+    (phaseM false false = 1 ∧ phaseM false true = 0 ∧ phaseM true false = 0 ∧ phaseM true true = Complex.I) ∧
+    (phaseDagM false false = 1 ∧ phaseDagM false true = 0 ∧ phaseDagM true false = 0 ∧ phaseDagM true true = -Complex.I) ∧
+    (sigmaX false false = 0 ∧ sigmaX false true = 1 ∧ sigmaX true false = 1 ∧ sigmaX true true = 0) ∧
+    (sigmaY false false = 0 ∧ sigmaY false true = -Complex.I ∧ sigmaY true false = Complex.I ∧ sigmaY true true = 0) ∧
+    (sigmaZ false false = 1 ∧ sigmaZ false true = 0 ∧ sigmaZ true false = 0 ∧ sigmaZ true true = -1) := by
+  refine ⟨rfl, rfl, rfl, rfl, rfl, rfl, rfl, rfl, rfl, invSqrt2_mul_self, ?_, ?_, ?_, ?_, ?_, ?_⟩ <;>
+    simp [hadM, phaseM, phaseDagM, sigmaX, sigmaY, sigmaZ]
+
+/-- **Every tableau update rule is conjugation by the gate's unitary.**  For every gate of `run_circuit`
+    (H, P, P†, X, Y, Z, I, CNOT, CZ) at every in-range position (control ≠ target), the gate matrix is unitary and
+    `U · P · U† = (row rule of transformation.py)(P)` for every signed Pauli row `P`, signs included, for every `n`. -/
+theorem gate_is_conjugation_by_its_unitary (n : Nat) (g : Gate) (hg : g.WF n) (p : PRow) :
+    gateMat n g * (gateMat n g)ᴴ = 1 ∧ (gateMat n g)ᴴ * gateMat n g = 1 ∧
+    gateMat n g * pauliMat n p * (gateMat n g)ᴴ = pauliMat n (g.act p) :=
+  ⟨(gate_unitary n g hg).1, (gate_unitary n g hg).2, gate_conj n g hg p⟩
+
+/-- the same for gate lists: the row-wise action of a circuit is conjugation by the product of the gate unitaries -/
+theorem circuit_is_conjugation_by_its_unitary (n : Nat) (c : List Gate) (hc : ∀ g ∈ c, g.WF n) (p : PRow) :
+    circMat n c * (circMat n c)ᴴ = 1 ∧
+    circMat n c * pauliMat n p * (circMat n c)ᴴ = pauliMat n (actCirc c p) :=
+  ⟨(circ_unitary n c hc).1, circ_conj n c hc p⟩
+
+/-- **Gate covariance of the stabilizer state**: updating the generator rows by the tableau rule is the Hilbert-space
+    evolution `ρ ↦ U ρ U†` (what the density-matrix backend computes), for single gates and for `run_circuit` -/
+theorem stabilizer_state_gate_covariance (T : STab) (g : Gate) (hg : g.WF T.n) :
+    gateMat T.n g * rho T.n T * (gateMat T.n g)ᴴ = rho T.n (T.applyGate g) := rho_applyGate T g hg
+
+theorem stabilizer_state_circuit_covariance (T : STab) (c : List Gate) (hc : ∀ g ∈ c, g.WF T.n) :
+    circMat T.n c * rho T.n T * (circMat T.n c)ᴴ = rho T.n (T.runCircuit c) := rho_runCircuit T c hc
+
+/-- for real, mutually commuting generators `ρ = ∏ (1 + P_i)/2` is an orthogonal projector -/
+theorem stabilizer_state_is_projector (T : STab) (hg : T.Good) :
+    rho T.n T * rho T.n T = rho T.n T ∧ (rho T.n T)ᴴ = rho T.n T := ⟨rho_idem T hg, rho_hermitian T hg⟩
+
+/-- … fixed by every element of the signed group generated by the rows: `S ρ = ρ` -/
+theorem stabilizer_state_fixed_by_group (T : STab) (hg : T.Good) (a : PRow) (ha : T.Spn a) :
+    pauliMat T.n a * rho T.n T = rho T.n T := span_mul_rho T hg a ha
+
+/-- **Gauge independence**: tableaux generating the same signed group have the same density matrix (so row swaps,
+    row sums, `canonical_form`, … do not change the state; `B.n = A.n` is part of `SpanEq`) -/
+theorem stabilizer_state_gauge_independent (A B : STab) (h : STab.SpanEq A B) (gA : A.Good) (gB : B.Good) :
+    rho A.n A = rho A.n B := rho_spanEq A B h gA gB
+
+/-! ### non-vacuity: the Bell pair -/
+
+/-- Bell pair `(|00⟩+|11⟩)/√2` with generators XX, ZZ -/
+def bellXX : STab :=
+  STab.ofRows 2 #[PRow.ofArrays #[true,true] #[false,false] false false,
+                  PRow.ofArrays #[false,false] #[true,true] false false]
+/-- the same state with generators −YY, ZZ -/
+def bellYY : STab :=
+  STab.ofRows 2 #[PRow.ofArrays #[true,true] #[true,true] true false,
+                  PRow.ofArrays #[false,false] #[true,true] false false]
+
+theorem good_of_check2 (t : STab) (hn : t.n = 2)
+    (h : (List.range 2).all (fun i => (t.row i).ip == false &&
+      (List.range 2).all fun k => PRow.sp 2 (t.row i) (t.row k) == false) = true) : t.Good := by
+  simp only [List.all_eq_true, List.mem_range, Bool.and_eq_true, beq_iff_eq] at h
+  constructor
+  · intro i hi; exact (h i (hn ▸ hi)).1
+  · intro i k hi hk; rw [hn]; exact (h i (hn ▸ hi)).2 k (hn ▸ hk)
+
+theorem bellXX_good : bellXX.Good := good_of_check2 _ rfl (by decide)
+theorem bellYY_good : bellYY.Good := good_of_check2 _ rfl (by decide)
+
+/-- XX, ZZ and −YY, ZZ generate the same group (−YY = XX·ZZ) -/
+theorem bell_generators_spanEq : STab.SpanEq bellXX bellYY := by
+  apply STab.spanEq_of_gens bellXX bellYY rfl
+  · intro i hi
+    have : i = 0 ∨ i = 1 := by have : i < 2 := hi; omega
+    rcases this with rfl | rfl
+    · exact InSpan.eqv _ _ (InSpan.mul _ _ (STab.spn_gen bellXX 0 (by decide)) (STab.spn_gen bellXX 1 (by decide)))
+        (beqOn_eqOn _ _ _ (by decide))
+    · exact InSpan.eqv _ _ (STab.spn_gen bellXX 1 (by decide)) (beqOn_eqOn _ _ _ (by decide))
+  · intro i hi
+    have : i = 0 ∨ i = 1 := by have : i < 2 := hi; omega
+    rcases this with rfl | rfl
+    · exact InSpan.eqv _ _ (InSpan.mul _ _ (STab.spn_gen bellYY 0 (by decide)) (STab.spn_gen bellYY 1 (by decide)))
+        (beqOn_eqOn _ _ _ (by decide))
+    · exact InSpan.eqv _ _ (STab.spn_gen bellYY 1 (by decide)) (beqOn_eqOn _ _ _ (by decide))
+
+example : (Gate.CNOT 0 1).WF bellXX.n ∧ (Gate.H 1).WF bellXX.n :=
+  ⟨⟨by decide, by decide, by decide⟩, (by decide : 1 < 2)⟩
+/-- hypotheses of `stabilizer_state_gauge_independent` hold for two different generating sets of the Bell pair -/
+example : rho 2 bellXX = rho 2 bellYY :=
+  stabilizer_state_gauge_independent bellXX bellYY bell_generators_spanEq bellXX_good bellYY_good
+/-- the Bell pair is `CNOT₀₁ H₀ |00⟩`: the tableau circuit run and the matrix conjugation agree -/
+example : circMat 2 [.H 0, .CNOT 0 1] * rho 2 (STab.zero 2) * (circMat 2 [.H 0, .CNOT 0 1])ᴴ = rho 2 bellXX := by
+  have h := stabilizer_state_circuit_covariance (STab.zero 2) [.H 0, .CNOT 0 1]
+    (by intro g hg
+        simp only [List.mem_cons, List.mem_nil_iff, or_false] at hg
+        rcases hg with rfl | rfl
+        · show 0 < 2; decide
+        · exact ⟨by decide, by decide, by decide⟩)
+  have e : rho 2 ((STab.zero 2).runCircuit [.H 0, .CNOT 0 1]) = rho 2 bellXX := by
+    apply rhoTo_congr 2 _ _ 2
+    intro i hi
+    have : i = 0 ∨ i = 1 := by omega
+    rcases this with rfl | rfl <;> exact beqOn_eqOn _ _ _ (by decide)
+  exact h.trans e
+/-- an anticommuting pair: X₀ and the Y₀Y₁ row -/
+example : sp 2 (Xq 0) (bellYY.row 0) = true := by decide
 
 end Graphiq.C07
